@@ -58,7 +58,7 @@ func checkC03(c *Ctx, r *Report) {
 				return
 			}
 			fv, _, is := fieldOf(st.Addr)
-			if !is || fv.Name() != "Status" || !strings.Contains(fv.Type().String(), "hitStatus") {
+			if !is || fname(fv) != "Status" || !strings.Contains(canonTypes(fv.Type().String()), "hitStatus") {
 				return
 			}
 			k, isC := constInt(st.Val)
@@ -136,7 +136,7 @@ func checkC03(c *Ctx, r *Report) {
 				return
 			}
 			fv, _, is := fieldOf(st.Addr)
-			if !is || fv.Name() != "Status" {
+			if !is || fname(fv) != "Status" {
 				return
 			}
 			if k, isC := constInt(st.Val); isC && k == reval {
@@ -204,7 +204,7 @@ func checkC03(c *Ctx, r *Report) {
 		eachInstr(f, func(in ssa.Instruction) {
 			switch x := in.(type) {
 			case *ssa.Store:
-				if fv, base, is := fieldOf(x.Addr); is && fv.Name() == "Stale" && strings.HasPrefix(structName(base.Type()), cachePkg+".Entry") {
+				if fv, base, is := fieldOf(x.Addr); is && fname(fv) == "Stale" && strings.HasPrefix(structName(base.Type()), cachePkg+".Entry") {
 					staleVals = append(staleVals, x.Val)
 					at = x
 				}
@@ -317,7 +317,7 @@ func checkC03(c *Ctx, r *Report) {
 						fromExp = true
 					}
 				}
-				if prm, ok := x.(*ssa.Parameter); ok && prm.Parent() == f && prm.Name() == "defaultCacheMaxAge" {
+				if prm, ok := x.(*ssa.Parameter); ok && prm.Parent() == f && pname(prm) == "defaultCacheMaxAge" {
 					fromDef = true
 				}
 				return false
